@@ -281,6 +281,19 @@ func corruptions(v interface{}, limit int, r *fw.Rand) [][]byte {
 				out = append(out, b)
 			}
 		}
+		// strings keep their length or nearly so: one character replaced by a line break / blank / padding sign (Go's base64 decoders
+		// skip \r and \n, so such a text decodes to fewer bytes than its length promises), one inserted, a multi-byte character
+		if sv, ok := gen.ValueAt(g, p).(string); ok && len(sv) > 0 && len(sv) < 1<<12 && len(out) < limit {
+			i := r.Intn(len(sv))
+			for _, nv := range []string{sv[:i] + "\n" + sv[i+1:], sv[:i] + "\r" + sv[i+1:], sv[:i] + "\n" + sv[i:], sv[:i] + "=" + sv[i+1:], sv[:i] + " " + sv[i+1:],
+				sv + "=", sv + "\n", "\n" + sv[1:], sv[:len(sv)-1] + "\n", sv[:i] + "\u00e9" + sv[i+1:], sv[:i] + "\x00" + sv[i+1:], sv[:i] + "+/" + sv[min(i+2, len(sv)):]} {
+				if c := gen.ReplaceAt(g, p, nv); c != nil {
+					if b, err := json.Marshal(c); err == nil {
+						out = append(out, b)
+					}
+				}
+			}
+		}
 	}
 	return out
 }
